@@ -964,6 +964,12 @@ int32 parseServerHelloExtensions(ssl_t *ssl, int32 hsLen,
     c = *cp;
     end = c + len;
 
+    if (len == 0)
+    {
+        /* The ServerHello ends without an extension block: nothing to parse,
+           but the server has answered none of our extensions */
+        goto enforce_rules;
+    }
     /* Check that we can parse the two length octets. */
     if (end - c < 2)
     {
@@ -1007,6 +1013,7 @@ int32 parseServerHelloExtensions(ssl_t *ssl, int32 hsLen,
         c += extLen;
     }
 
+enforce_rules:
     /* Enforce the rules for extensions that require the server to send
         something back to us */
 
